@@ -567,7 +567,7 @@ def source_fingerprint():
 TIERS = {
     # prop: tier: (plans, batch, replicas k, recycle-after-batches, wall budget seconds)
     "C16": {"quick": (16000, 100, 2, 10, 240), "thorough": (1200000, 200, 2, 12, 1800)},
-    "C15": {"quick": (6400, 10, 3, 10, 400), "thorough": (90000, 20, 4, 8, 2900)},
+    "C15": {"quick": (6400, 10, 4, 10, 420), "thorough": (60000, 20, 8, 8, 2900)},
     "C13": {"quick": (12000, 50, 2, 10, 300), "thorough": (100000, 100, 2, 12, 2700)},
 }
 
